@@ -253,6 +253,7 @@ J gen_tunnel(uint64_t seed, const J &ov)
 		// (every answer must echo the id/name/type of a distinct received query), never under the C16 oracles
 		if (ov.getb("retype")) f.set("p_rd_retype", r.chance(0.7) ? 0.05 + r.uniform() * 0.4 : 0.0);
 		f.set("rd_max_delay_us", (long long)(r.chance(0.5) ? r.range(1000, 200000) : r.range(200000, 3000000)));
+		f.set("p_trigger_dup", r.chance(0.6) ? 0.1 + r.uniform() * 0.6 : 0.0);      // repeats aimed at the 20 ms send-real-soon window / held queries
 		cfg.set("faults", f);
 		cfg.set("dur_s", (int)(W + 45));
 		cfg.set("tmax_s", 600);
